@@ -1,11 +1,12 @@
 // srvdrive drives a real TarsGo server (public API, in-process) with a scripted raw client for C10
 // "the server answers each well-formed request exactly once with matching identity".
 //
-//	srvdrive run -proto tcp|udp -pool N -ht MS -seed S -rounds R -per P -conns K -out recs.ndjson
+//	srvdrive run -proto tcp|udp -pool N -ht MS -filters none|legacy|prepost|mw|all -servant ctx|plain
+//	             -seed S -rounds R -per P -conns K -out recs.ndjson
 //	srvdrive udpshort -len L           (probe for F6: a datagram shorter than the frame header)
 //
-// One invocation = one server configuration: maxroutine / handletimeout are process-global settings of the
-// framework, so the check runs every configuration in its own process.
+// One invocation = one server configuration: maxroutine / handletimeout and the registered server filters are
+// process-global settings of the framework, so the check runs every configuration in its own process.
 package main
 
 import (
@@ -31,6 +32,8 @@ func main() {
 		fs.IntVar(&o.rounds, "rounds", 8, "rounds")
 		fs.IntVar(&o.per, "per", 24, "requests per round")
 		fs.IntVar(&o.conns, "conns", 3, "client connections / sockets")
+		fs.StringVar(&o.filters, "filters", "none", "server filters registered in the process: none|legacy|prepost|mw|all")
+		fs.StringVar(&o.servant, "servant", "ctx", "servant registered with context (ctx) or without (plain)")
 		fs.StringVar(&o.out, "out", "recs.ndjson", "output file")
 		fs.Parse(os.Args[2:])
 		err = run(o)
